@@ -233,8 +233,10 @@ fn drive(cfg: &Config, slot: usize, progs: &[(String, Vec<Req>, Vec<u8>)], memcr
                 ));
             }
             transcript.extend(got);
+            crate::watchdog::beat();
         }
     }
+    crate::watchdog::beat();
     // ---- item size limit: body = limit accepted, limit + 1 refused ----
     {
         let mut c = Client::connect(srv.addr)?;
@@ -268,13 +270,32 @@ fn drive(cfg: &Config, slot: usize, progs: &[(String, Vec<Req>, Vec<u8>)], memcr
                 conns.push(c);
             }
         }
-        std::thread::sleep(Duration::from_millis(300));
-        let mut served = 0;
-        for c in conns.iter_mut() {
-            if !wire::split_responses(&c.read_frames(1, Duration::from_millis(50))).0.is_empty() {
-                served += 1;
+        // positive expectation (`want` connections answered): wait up to 5 s; negative expectation
+        // (no more than that): a further 300 ms
+        let mut answered = vec![false; conns.len()];
+        let t_probe = Instant::now();
+        let mut reached_at: Option<Instant> = None;
+        loop {
+            for (i, c) in conns.iter_mut().enumerate() {
+                if !answered[i] && !wire::split_responses(&c.read_frames(1, Duration::from_millis(2))).0.is_empty() {
+                    answered[i] = true;
+                }
             }
+            let served_now = answered.iter().filter(|a| **a).count();
+            if served_now >= want && reached_at.is_none() {
+                reached_at = Some(Instant::now());
+            }
+            if let Some(r) = reached_at {
+                if r.elapsed() > Duration::from_millis(300) {
+                    break;
+                }
+            }
+            if t_probe.elapsed() > Duration::from_secs(5) {
+                break;
+            }
+            crate::watchdog::beat();
         }
+        let served = answered.iter().filter(|a| **a).count();
         if served != want {
             problems.push((
                 format!("connection-limit|{}", if served > want { "exceeded" } else { "under-served" }),
@@ -284,6 +305,7 @@ fn drive(cfg: &Config, slot: usize, progs: &[(String, Vec<Req>, Vec<u8>)], memcr
         drop(conns);
         std::thread::sleep(Duration::from_millis(100));
     }
+    crate::watchdog::beat();
     // ---- real time: ttl 2 hits at once, misses after 4.5 s ----
     {
         let mut c = Client::connect(srv.addr)?;
